@@ -294,7 +294,10 @@ def run_shard(spec_, seed):
 
     torch.set_num_threads(1)
     res = ShardResult()
-    strat = st.tuples(_specs(), st.sampled_from(TAGS), st.booleans())
+    from vlib import values
+
+    tags = st.one_of(st.sampled_from(TAGS), values.texts(20))
+    strat = st.tuples(_specs(), tags, st.booleans())
     with Scratch("c16") as scratch:
 
         def body(case):
